@@ -752,7 +752,30 @@ MC_RULE = ("MC scenarios: random systems of 2-3 table-driven processes on 1-3 no
            "handed to the invariant is compared (digest of the complete McState incl. store indexes, event logs, "
            "counters, network, trace), plus result, statuses, collected set, and the checker's state before/after. ")
 
+SIM_RULE = ("SIM scenarios: random API call scripts against the real System (add nodes/processes, clock skews, network "
+            "settings incl. random delay ranges and rates 0 / in (0,1) / 1, local messages, step, steps, "
+            "step_for_duration, step_until_no_events, step_until_local_message[_max_steps|_timeout], reads, every link "
+            "control, crash / recover / re-add) over table-driven processes that send, set / override / cancel timers, "
+            "read the clock and draw random numbers; a fifth of the scripts are link-control-heavy (3-4 nodes, half of "
+            "the calls are link / partition / disconnect / reset operations). After EVERY call: return value, new trace "
+            "entries and a digest of the observable state (clock, live queue, per-process state / outbox / counters / "
+            "event log, network settings and counters) are compared with the model, bit-exact (binary64 through Flocq). "
+            "distinct_nontrivial = distinct scripts with >= 15 trace entries and faults, a crash, link operations or timers.")
+SIM_ASSUMPTIONS = [
+    "the model functions compute what the Rust functions they mirror compute (checked by the correspondence run of "
+    "this check, not proved); simcore's queue, cancellation and stepping are modelled, not verified",
+    "the random stream regenerated with rand 0.8 / rand_pcg 0.3 (harness draws) is simcore's stream",
+    "IEEE binary64 satisfies Spec/TimeLaws.time_laws on the values that occur (monotone rounding, x + 0.0 = x): "
+    "assumed for floating point, proved for the integer instance",
+]
+
 PROPERTIES = {
+    "C05": {"suites": [suite_sim], "rule": SIM_RULE, "assumptions": SIM_ASSUMPTIONS},
+    "C06": {"suites": [suite_sim], "rule": SIM_RULE, "assumptions": SIM_ASSUMPTIONS + [
+        "step_until_local_message_timeout is not among the calls C06 lists and is not held to a contract",
+        "durations passed to step_for_duration are non-negative (a negative one moves the clock backwards: "
+        "C06_negative_duration_refuted)"]},
+    "C08": {"suites": [suite_sim], "rule": SIM_RULE, "assumptions": SIM_ASSUMPTIONS},
     "C09": {
         "suites": [suite_mc, suite_mc_staged],
         "rule": MC_RULE + "Each run is executed twice on the same ModelChecker. distinct_nontrivial = distinct scenarios "
